@@ -233,6 +233,8 @@ pub struct Gen<'a> {
     names: Vec<Option<Kind>>,
     key_space: u64,
     str_prefix: String,
+    /// (table, kind, key, value) pairs believed present in multimaps, for removals that hit
+    mm_seen: Vec<(u8, Kind, KeyVal, KeyVal)>,
     /// largest value length the chosen geometry supports (a value must fit well inside a region)
     max_val: u32,
 }
@@ -241,7 +243,7 @@ const NAMES: usize = 5;
 
 impl<'a> Gen<'a> {
     pub fn new(rng: &'a mut Rng, prof: Profile) -> Self {
-        Gen { rng, prof, page: 512, next_val: 1, names: vec![None; NAMES], key_space: 32, str_prefix: String::new(), max_val: 48 * 1024 }
+        Gen { rng, prof, page: 512, next_val: 1, names: vec![None; NAMES], key_space: 32, str_prefix: String::new(), mm_seen: vec![], max_val: 48 * 1024 }
     }
 
     pub fn cfg(&mut self) -> Cfg {
@@ -497,8 +499,29 @@ impl<'a> Gen<'a> {
             _ => KeyVal::S(format!("m{}", self.rng.below(4))),
         };
         match self.rng.below(100) {
-            0..=54 => Op::MmInsert { t, k, v: self.mm_val(t.kind.val_type()) },
-            55..=74 => Op::MmRemove { t, k, v: self.mm_val(t.kind.val_type()) },
+            0..=54 => {
+                let v = self.mm_val(t.kind.val_type());
+                if self.mm_seen.len() >= 96 {
+                    let at = self.rng.usize(self.mm_seen.len());
+                    self.mm_seen.swap_remove(at);
+                }
+                self.mm_seen.push((t.name, t.kind, k.clone(), v.clone()));
+                Op::MmInsert { t, k, v }
+            }
+            55..=74 => {
+                // mostly a pair that was inserted before (a fresh random value is almost never
+                // present, and removing what is not there exercises nothing)
+                let known: Vec<usize> = self.mm_seen.iter().enumerate().filter(|(_, e)| e.0 == t.name && e.1 == t.kind).map(|(i, _)| i).collect();
+                if !known.is_empty() && self.rng.chance(4, 5) {
+                    let i = known[self.rng.usize(known.len())];
+                    // prefer the most recent insert now and then: the key's last value
+                    let i = if self.rng.chance(1, 3) { *known.last().unwrap() } else { i };
+                    let (_, _, k2, v2) = self.mm_seen.swap_remove(i);
+                    Op::MmRemove { t, k: k2, v: v2 }
+                } else {
+                    Op::MmRemove { t, k, v: self.mm_val(t.kind.val_type()) }
+                }
+            }
             75..=79 => Op::MmRemoveAll { t, k },
             80..=89 => Op::MmGet { t, k, pattern: if self.rng.chance(1, 2) { 0 } else { self.rng.next() as u32 } },
             90..=95 => {
